@@ -181,6 +181,29 @@ def r1(p, rep):
                     for okk, w, why in res:
                         rep.add("C10.R1", f"{c.qualname}.{name}:write(self.{attr})", f"{c.module.rel}:{w.lineno}", okk, why)
     if not found:
+        # a lock reached through the very attribute it guards (`use_lock` as a property returning self.state.lock)
+        unstable = []
+        for c in p.classes.values():
+            for name, f in c.methods.items():
+                if not any(norm(d) == "property" for d in f.node.decorator_list):
+                    continue
+                rets = [r.value for r in walk_no_nested(f.node) if isinstance(r, ast.Return) and r.value is not None]
+                s0 = self_name(f)
+                if len(rets) != 1 or s0 is None:
+                    continue
+                ch = attr_chain(rets[0])
+                if not (ch and len(ch) == 3 and ch[0] == s0):
+                    continue
+                holder = ch[1]
+                used_as_lock = any(isinstance(w, (ast.With, ast.AsyncWith)) and any(norm(it.context_expr) == f"{self_name(g)}.{name}" for it in w.items) for g in c.methods.values() if self_name(g) for w in ast.walk(g.node))
+                replaced = any(isinstance(n, ast.Attribute) and isinstance(n.ctx, ast.Store) and n.attr == holder and isinstance(n.value, ast.Name) and n.value.id == self_name(g) for gname, g in c.methods.items() if gname != "__init__" and self_name(g) for n in ast.walk(g.node))
+                if used_as_lock and replaced:
+                    unstable.append((c, f, holder, ch[2]))
+        for c, f, holder, lk in unstable:
+            rep.violation("C10.R1", f"{c.qualname}:{f.name}:lock-identity", f"{c.module.rel}:{f.node.lineno}", f"the lock `self.{f.name}` is `self.{holder}.{lk}`, i.e. part of the object that the locked regions replace: after every replacement a new lock is in force, so a thread holding the old lock and a thread taking the new one are in the critical section together (lost updates of self.{holder})")
+        if unstable:
+            rep.info["locks"] = info
+            return info
         raise AnalysisError("anchor vanished: no class with a threading lock protecting an attribute (BackendRegistry.use_lock expected)")
     rep.info["locks"] = info
     return info
@@ -442,6 +465,20 @@ def r3(p, rep, lockinfo):
                     rep.ok("C10.R3", key, site, "every mutation is inside `with <module lock>`")
                 else:
                     rep.violation("C10.R3", key, site, f"module-level object {name} = {norm(value) if value is not None else '?'} is mutated in {sorted({f.qualname.split('::')[1] for f, _ in sites})} without being thread-local or lock-protected: threads tracing concurrently see each other's entries")
+    # (i') subclasses of threading.local: a mutable class attribute is ONE object shared by all threads
+    for c in p.classes.values():
+        if any(c.module.name == x for x in common.OFF_PATH_MODULES):
+            continue
+        is_tl = False
+        for k in p.mro(c):
+            for b in k.node.bases:
+                rb = p.resolve_expr(k.module, b, None)
+                if rb and rb[0] == "external" and rb[1] == "threading.local":
+                    is_tl = True
+        if not is_tl:
+            continue
+        shared = [m_ for k in p.mro(c) for m_ in _class_level_mutables(k)]
+        rep.add("C10.R3", f"{c.qualname}:thread-local-subclass", c.loc, not shared, "per-thread attributes only (set in __init__ or lazily)" if not shared else f"subclass {c.name} of threading.local has class-level mutable attribute(s) {shared}, which are shared by all threads: per-thread stacks become one global stack")
     # (ii) classes that mutate self outside __init__
     snapshot_classes = set(rep.info.get("snapshot", {}))
     for c in p.classes.values():
@@ -648,6 +685,77 @@ def r6(p, rep):
     return n
 
 
+def r7(p, rep):
+    rep.rule("C10.R7", "an attribute of a threading.local object is set up in the very function (thread) that reads it: other threads start with an empty object", "definite-assignment dataflow on `<thread-local>.<attr>` (hasattr guard or assignment on every path to a read)", floor=4)
+    from sa.cfg import CFG, decompose
+
+    # thread-local storages: module-level names and self attributes initialised as threading.local()
+    tls = set()
+    for m in p.modules.values():
+        for k, b in m.bindings.items():
+            if b.kind == "var" and _is_threading(p, m, getattr(b.node, "value", None), ("local",)):
+                tls.add((m.name, k))
+    for c in p.classes.values():
+        init = c.methods.get("__init__")
+        for a, vals in p.self_attr_table(c).items():
+            if any(_is_threading(p, c.module, v, ("local",), init.node if init else None) for v in vals):
+                tls.add((c.module.name, f"self.{a}"))
+    n = 0
+    for f in p.funcs.values():
+        if not isinstance(f.node, (ast.FunctionDef, ast.AsyncFunctionDef)) or any(f.module.name == x for x in common.OFF_PATH_MODULES):
+            continue
+        names = {k for mod, k in tls if mod == f.module.name}
+        reads = [x for x in walk_no_nested(f.node) if isinstance(x, ast.Attribute) and isinstance(x.ctx, ast.Load) and norm(x.value) in names and not (isinstance(getattr(x, "_parent", None), ast.Attribute) and False)]
+        if not reads:
+            continue
+        cfg = CFG(f.node)
+        pseudo = {f"{norm(x.value)}.{x.attr}" for x in reads}
+        kill = {}
+        for nd in cfg.nodes:
+            if nd.kind == "stmt" and isinstance(nd.ast, (ast.Assign, ast.AugAssign, ast.AnnAssign)):
+                for t in (nd.ast.targets if isinstance(nd.ast, ast.Assign) else [nd.ast.target]):
+                    if isinstance(t, ast.Attribute) and norm(t) in pseudo:
+                        kill.setdefault(nd.id, set()).add(norm(t))
+            if nd.kind == "edge" and nd.test is not None and nd.polarity is not None:
+                for t, pol in decompose(nd.test, nd.polarity):
+                    if pol and isinstance(t, ast.Call) and norm(t.func) == "hasattr" and len(t.args) == 2 and isinstance(t.args[1], ast.Constant):
+                        kill.setdefault(nd.id, set()).add(f"{norm(t.args[0])}.{t.args[1].value}")
+        IN = {x.id: set() for x in cfg.nodes}
+        OUT = {x.id: set() for x in cfg.nodes}
+        OUT[cfg.entry.id] = set(pseudo)
+        work = list(cfg.nodes)
+        while work:
+            nd = work.pop()
+            if nd is cfg.entry:
+                o = set(pseudo)
+            else:
+                i = set()
+                for q in nd.pred:
+                    i |= OUT[q.id]
+                IN[nd.id] = i
+                o = i - kill.get(nd.id, set())
+            if o != OUT[nd.id]:
+                OUT[nd.id] = o
+                work.extend(nd.succ)
+        for x in reads:
+            nm = f"{norm(x.value)}.{x.attr}"
+            nd = cfg.node_for(x)
+            if nd is None:
+                continue
+            n += 1
+            par = getattr(x, "_parent", None)
+            own_store = isinstance(par, ast.AugAssign) and par.target is x
+            ok = nm not in IN[nd.id] and not own_store
+            if not ok and f.cls is not None and f.name in ("__exit__", "_exit", "exit"):
+                # the paired enter method of the same context manager runs first, on the same thread
+                pair = f.cls.methods.get({"__exit__": "__enter__", "_exit": "_enter", "exit": "enter"}[f.name])
+                if pair is not None and any((isinstance(a, ast.Assign) and any(norm(t) == nm for t in a.targets)) or (isinstance(a, ast.Call) and norm(a.func) == "hasattr" and len(a.args) == 2 and isinstance(a.args[1], ast.Constant) and f"{norm(a.args[0])}.{a.args[1].value}" == nm) for a in ast.walk(pair.node)):
+                    rep.ok("C10.R7", f"{f.qualname}:read:{nm}", f"{f.module.rel}:{x.lineno}", f"`{nm}` is established by the paired {pair.name} of the same context manager, which runs first on the same thread")
+                    continue
+            rep.add("C10.R7", f"{f.qualname}:read:{nm}", f"{f.module.rel}:{x.lineno}", ok, f"`{nm}` is set or checked with hasattr on every path of {f.name} before it is read" if ok else f"`{nm}` is read in {f.name} without a hasattr guard or assignment in the same function: a thread other than the one that ran the initialisation finds an empty threading.local and raises AttributeError (the call fails only because of which thread it runs on)")
+    return n
+
+
 def run(p, rep, tier):
     lockinfo = r1(p, rep)
     r2(p, rep, lockinfo)
@@ -655,4 +763,5 @@ def run(p, rep, tier):
     r4(p, rep)
     r5(p, rep)
     r6(p, rep)
+    r7(p, rep)
     rep.info["undecided"] = "linearizability of whole call histories; the process-global use_stack being shared by threads is a specification question"
